@@ -218,6 +218,7 @@ def run_groups(spec, tier, seed, violations, stats):
     outs = E.run_cases(exe, cases, timeout=3000)
     stats["group_race_s"] = round(time.time() - t0, 1)
     parsed = [parse_group(o[0] if o else "") for o in outs]
+    stats["group_hang"] = any(o and o[0] == "hang" for o in outs)
     jcases, jkeys = [], []
     for c, rounds in zip(cases, parsed):
         distinct = []
@@ -285,8 +286,11 @@ def main(spec, argv=None, env=None):
     if a.tier == "thorough" and spec.release_in_thorough:
         unit.run_profile(spec, a.tier, a.seed, False, lean["ok"], violations, stats)
     if not any(v.key == "harness-build-failed" for v in violations):
-        run_races(spec, a.tier, a.seed, violations, stats)
+        # the multi-object races first: they detect a thread stuck inside mmtk-core (answer `hang` after 10 s); the
+        # single-object races join their threads and would then block until the engine's timeout
         run_groups(spec, a.tier, a.seed, violations, stats)
+        if not stats.get("group_hang"):
+            run_races(spec, a.tier, a.seed, violations, stats)
     if not lean["ok"] and not any(v.found_input for v in violations):
         names = [f.get("theorem") or f.get("module") or f["kind"] for f in lean["failures"]]
         violations.append(Violation("proof-broken", f"Lean obligations no longer check: {lean['failures']}",
